@@ -93,7 +93,7 @@ class DirectionalLight(Light):
             raise DaeIncompleteError('Missing color for directional light')
         try:
             color = tuple([float(v) for v in colornode.text.split()])
-        except ValueError:
+        except (AttributeError, ValueError):
             raise DaeMalformedError('Corrupted color values in light definition')
         return DirectionalLight(node.get('id'), color, xmlnode=node)
 
@@ -164,7 +164,7 @@ class AmbientLight(Light):
             raise DaeIncompleteError('Missing color for ambient light')
         try:
             color = tuple([float(v) for v in colornode.text.split()])
-        except ValueError:
+        except (AttributeError, ValueError):
             raise DaeMalformedError('Corrupted color values in light definition')
         return AmbientLight(node.get('id'), color, xmlnode=node)
 
@@ -268,7 +268,7 @@ class PointLight(Light):
             raise DaeIncompleteError('Missing color for point light')
         try:
             color = tuple([float(v) for v in colornode.text.split()])
-        except ValueError:
+        except (AttributeError, ValueError):
             raise DaeMalformedError('Corrupted color values in light definition')
         constant_att = linear_att = quad_att = zfar = None
         qattnode = pnode.find(collada.tag('quadratic_attenuation'))
@@ -284,7 +284,7 @@ class PointLight(Light):
                 quad_att = float(qattnode.text)
             if zfarnode is not None:
                 zfar = float(zfarnode.text)
-        except ValueError:
+        except (TypeError, ValueError):
             raise DaeMalformedError('Corrupted values in light definition')
         return PointLight(node.get('id'), color, constant_att, linear_att,
                           quad_att, zfar, xmlnode=node)
@@ -393,7 +393,7 @@ class SpotLight(Light):
             raise DaeIncompleteError('Missing color for spot light')
         try:
             color = tuple([float(v) for v in colornode.text.split()])
-        except ValueError:
+        except (AttributeError, ValueError):
             raise DaeMalformedError('Corrupted color values in spot light definition')
         constant_att = linear_att = quad_att = falloff_ang = falloff_exp = None
         cattnode = pnode.find(collada.tag('constant_attenuation'))
@@ -412,7 +412,7 @@ class SpotLight(Light):
                 falloff_ang = float(fangnode.text)
             if fexpnode is not None:
                 falloff_exp = float(fexpnode.text)
-        except ValueError:
+        except (TypeError, ValueError):
             raise DaeMalformedError('Corrupted values in spot light definition')
         return SpotLight(node.get('id'), color, constant_att, linear_att,
                          quad_att, falloff_ang, falloff_exp, xmlnode=node)
